@@ -45,6 +45,10 @@ pub struct Case {
     /// also let every train walk its timed plan (expensive)
     pub walk_plans: bool,
     pub hash_seed: u64,
+    /// origins / destinations are the two tracks of the first / last passing siding (a two-track yard at either
+    /// end: several CONNECTED origin and destination segments per train) instead of the terminal mains
+    #[serde(default)]
+    pub yard_ends: bool,
 }
 
 pub fn generate(rng: &mut Rng, focus: &str, thorough: bool) -> Case {
@@ -70,6 +74,7 @@ pub fn generate(rng: &mut Rng, focus: &str, thorough: bool) -> Case {
     o.lockouts = rng.chance(0.25);
     o.base_speed = (10.0, 26.0);
     let mut links = gen_network(rng, &o);
+    let yard_ends = o.n_sidings >= 2 && rng.chance(if focus == "C15" { 0.35 } else { 0.2 });
     // Sidings (and some mains) made of several links, as in the repository's own networks: only then can a
     // train wait inside a siding, clear of the main, and opposing trains be on the line at the same time.
     if rng.chance(0.75) {
@@ -77,6 +82,10 @@ pub fn generate(rng: &mut Rng, focus: &str, thorough: bool) -> Case {
         for i in 1..=nf {
             let is_main = (i - 1) % 3 == 0;
             let len = links[i].length.value;
+            // yard tracks stay whole (an origin is the first, a destination the last link of its track)
+            if yard_ends && (i == 2 || i == 3 || i == nf - 2 || i == nf - 1) {
+                continue;
+            }
             // the terminal mains stay whole (origin / destination = one link, longer than any train)
             if is_main && (i == 1 || i == nf || !rng.chance(0.3)) {
                 continue;
@@ -140,6 +149,7 @@ pub fn generate(rng: &mut Rng, focus: &str, thorough: bool) -> Case {
         degenerate: if rng.chance(0.04) { Degenerate::NoRoute } else { Degenerate::None },
         walk_plans: rng.chance(if focus == "C03" { 1.0 } else { 0.08 }),
         hash_seed: rng.next(),
+        yard_ends,
     }
 }
 
@@ -147,9 +157,15 @@ fn loc(id: &str, l: usize) -> Location {
     Location { location_id: id.into(), offset: 0.0 * uc::M, link_idx: LinkIdx::new(l as u32), is_front_end: false, grid_emissions_region: "x".into(), electricity_price_region: "x".into(), liquid_fuel_price_region: "x".into() }
 }
 
-pub fn location_map(ns: usize) -> HashMap<String, Vec<Location>> {
+pub fn location_map(ns: usize, yard_ends: bool) -> HashMap<String, Vec<Location>> {
     let nf = n_fwd(ns);
     let mut lm: HashMap<String, Vec<Location>> = HashMap::new();
+    if yard_ends && ns >= 2 {
+        let fl = |i: usize| 2 * nf + 1 - i;
+        lm.insert("A".into(), vec![loc("A", 2), loc("A", 3), loc("A", fl(2)), loc("A", fl(3))]);
+        lm.insert("B".into(), vec![loc("B", nf - 2), loc("B", nf - 1), loc("B", fl(nf - 2)), loc("B", fl(nf - 1))]);
+        return lm;
+    }
     lm.insert("A".into(), vec![loc("A", 1), loc("A", 2 * nf)]);
     lm.insert("B".into(), vec![loc("B", nf), loc("B", nf + 1)]);
     // a place no train can leave towards A or B in the right direction
@@ -157,7 +173,7 @@ pub fn location_map(ns: usize) -> HashMap<String, Vec<Location>> {
 }
 
 pub fn build_sims(case: &Case) -> anyhow::Result<Vec<SpeedLimitTrainSim>> {
-    let lm = location_map(case.n_sidings);
+    let lm = location_map(case.n_sidings, case.yard_ends);
     let mut sims = vec![];
     for (t, tc) in case.trains.iter().enumerate() {
         let cfg = trn::build_train_config(&tc.spec)?;
